@@ -362,6 +362,28 @@ def rule_infresolve(ctx) -> RuleResult:
 # On the blockwise plan G is the *concatenation of the label sets of the blocks* (dask_groupby_agg), unique only if no group spans
 # two blocks -- a precondition on the user's chunking.  The code removes duplicated -1 (missing) slots itself, which states the belief
 # that duplicates occur; any other duplicate must be refused with an allowed exception before the reindex.
+def _per_block_concats(f):
+    """np.concatenate(N) calls where N is bound to a comprehension that slices one array per loop item (per-block label lists),
+    found structurally (no reliance on variable names)"""
+    out = []
+    for n in walk_own(f.node):
+        if not (isinstance(n, ast.Call) and norm(n.func) in ("np.concatenate", "numpy.concatenate") and n.args and isinstance(n.args[0], ast.Name)):
+            continue
+        name = n.args[0].id
+        defs = [a.value for a in walk_own(f.node) if isinstance(a, ast.Assign) and any(isinstance(t, ast.Name) and t.id == name for t in a.targets)]
+        for d in defs:
+            comp = d
+            if isinstance(d, ast.Call) and norm(d.func) in ("tuple", "list") and d.args:
+                comp = d.args[0]
+            if isinstance(comp, (ast.GeneratorExp, ast.ListComp)):
+                tvars = set()
+                for g in comp.generators:
+                    tvars |= names_in(g.target)
+                if any(isinstance(x, ast.Subscript) and names_in(x.slice) & tvars for x in ast.walk(comp.elt)):
+                    out.append(n)
+    return out
+
+
 _UNIQ_WORDS = ("is_unique", "duplicated(", "has_duplicates", "np.unique(", "_unique(", "nunique(")
 
 
@@ -371,8 +393,7 @@ def rule_uniquefrom(ctx) -> RuleResult:
     prog = ctx.prog
     # (1) the source: blockwise groups are a concatenation of per-block label sets
     dga = prog.func("core.dask_groupby_agg")
-    conc = [n for n in walk_own(dga.node) if isinstance(n, ast.Call) and norm(n.func) in ("np.concatenate", "numpy.concatenate")
-            and any(isinstance(x, ast.Name) and "block" in x.id for x in ast.walk(n))]
+    conc = _per_block_concats(dga)
     res.inst(f"dask_groupby_agg: {len(conc)} concatenation(s) of per-block label sets: {[norm(c)[:50] for c in conc]}", "source")
     if not conc:
         res.notes.append("blockwise groups are no longer a concatenation of per-block label sets: duplicates cannot arise that way; rule not applicable")
@@ -754,8 +775,7 @@ def rule_blocklabels(ctx) -> RuleResult:
     if "sort" not in f.params:
         raise AnalysisError("dask_groupby_agg lost its sort parameter (anchor)")
     from .codes import _local_closure
-    conc = [n for n in walk_own(f.node) if isinstance(n, ast.Call) and norm(n.func) in ("np.concatenate", "numpy.concatenate")
-            and n.args and isinstance(n.args[0], ast.Name) and "block" in n.args[0].id]
+    conc = _per_block_concats(f)
     if not conc:
         res.notes.append("blockwise labels are no longer a concatenation of per-block label lists: rule not applicable")
         res.min_instances = 0
